@@ -148,7 +148,8 @@ def parse_mism(out):
     m = re.search(r"M\s*=\s*(.*?)\s*:\s*list", out, re.S)
     if not m:
         return None
-    return [(int(a), int(b)) for a, b in re.findall(r"\((\d+)(?:%\w+)?,\s*(\d+)(?:%\w+)?\)", m.group(1))]
+    txt = re.sub(r"\s+", "", m.group(1))      # the printer breaks lines anywhere, also right after "("
+    return [(int(a), int(b)) for a, b in re.findall(r"\((\d+)(?:%\w+)?,(\d+)(?:%\w+)?\)", txt)]
 
 
 def setup():
